@@ -13,6 +13,9 @@ StartViol(r) ==
    (IF \E i \in DOMAIN r.hops : r.hops[i] \notin HopKinds THEN {"C06_StartStaysOnHost"} ELSE {})
    \cup (IF r.recorded \notin {"samesite", "none"} THEN {"C06_RecordedSameSite"} ELSE {})
    \cup (IF r.recorded # "none" /\ ~(r.cbsession /\ r.cbeq /\ r.cbloc = "samesite") THEN {"C06_ReturnsWhereStarted"} ELSE {})
+\* two callbacks presenting the same code at the same time: "sets a session only when ... the authenticator redeems
+\* the code" - every session needs a redemption the authenticator actually served (a code is good for one)
+PairViol(r) == IF r.sessions > r.redeems THEN {"C06_SessionNeedsItsOwnRedeem"} ELSE {}
 Report(vs, dr) == /\ IF vs = {} THEN TRUE ELSE PrintT(<<"VIOL", l, vs>>)
                   /\ IF dr = {} THEN TRUE ELSE PrintT(<<"DRIFT", l, dr>>)
 TInit == cell \in {CHOOSE c \in Cells : TRUE} /\ out = None /\ l = 1 /\ TLCSet(1, 1)
@@ -20,6 +23,7 @@ TStep == /\ l <= Len(Trace)
          /\ LET r == Trace[l] IN
               IF r.ev = "cell" THEN Report(Violated(Cell(r), Obs(r.out)), Drift(Respond(Cell(r)), Obs(r.out)))
               ELSE IF r.ev = "start" THEN Report(StartViol(r), {})
+              ELSE IF r.ev = "cbpair" THEN Report(PairViol(r), {})
               ELSE TRUE
          /\ l' = l + 1 /\ UNCHANGED <<cell, out>>
 TSpec == TInit /\ [][TStep]_tvars
